@@ -53,6 +53,20 @@ def make_cases(rng, tier, n):
             c["ops"] = [first] + conv + tail
             cases.append(c)
         stats["flow_" + flow] = stats.get("flow_" + flow, 0) + 1
+    if tier == "thorough" or n >= 900:
+        # a manifest of several MiB: a flat directory of 30000 entries (an old-schema entry is about half as long again as a
+        # current one, so any size limit tuned to the current schema bites the old one first)
+        init = [("dir", b"many")] + [("file", b"many/f%05d" % j, "g:%d:%d" % (j % 7, j % 3)) for j in range(30000)]
+        base = dict(id="old-huge", init=init, stages=[(b"many.yaml", dict(cmd=b"", wd=b".", out=[(b"many", "d")]))], ops=[], cache="rel", timeout=900)
+        for twin, conv in (("old", [("oldschema",)]), ("new", [])):
+            c = copy.deepcopy(base)
+            c["id"] = "old-huge-" + twin
+            c["group"] = "old-huge"
+            c["twin"] = twin
+            c["flow"] = "checkout"
+            c["ops"] = [("commit", "l", [])] + conv + [("clone", []), ("checkout", "l", False, []), ("status", [])]
+            cases.append(c)
+        stats["huge_manifest"] = 1
     return cases, stats
 
 
